@@ -186,6 +186,31 @@ def make_r(chunk, seed, per_chunk=220):
     return run
 
 
+def make_h(kind, stasher_i):
+    """references to hidden columns through an earlier table object: stasher >> V >> [alias(keep_col_refs=True)] >> user"""
+    def run(carve):
+        stashers, users, alias_keep = P.hidden_ref_steps()
+        S = P.steps()
+        n, bad, refused = 0, [], 0
+        for v in [None] + S:
+            for ak in (False, True):
+                for u in users:
+                    pipe = [stashers[stasher_i]] + ([v] if v is not None else []) + ([alias_keep] if ak else []) + [u]
+                    r = P.compare(pipe, kind, ("hidden_group_col",))
+                    if r is None or r[0] == "rejected":
+                        continue
+                    n += 1
+                    if r[0] == "mismatch":
+                        bad.append(r[1])
+                    elif r[0] == "refused":
+                        refused += 1
+        out = _enum_outcome(f"[{kind}] {stashers[stasher_i].label} >> V >> [alias(keep_col_refs=True)] >> use of the hidden column: Polars and SQLite agree", n, bad, allow_empty=True)
+        out.notes = [f"refused by SQL: {refused}"]
+        return out
+
+    return run
+
+
 _obligations_d = obligations
 
 
@@ -204,6 +229,10 @@ def obligations(tier):  # noqa: F811
         obs.append(Obligation(f"C01/R/{chunk:02d}", "R", "seeded random pipelines of 4-6 steps (native differential)", make_r(chunk, seed), functions=fns,
                               bounded=f"220 random pipelines of 4-6 steps per chunk over {len(P.steps()) + len(P.expr_steps())} steps, inputs mixed / tall / single / empty; seed {seed}",
                               carveouts={"hidden_group_col": "a grouping column is overwritten while the table is grouped (F-hidden-group-col)"}))
+    for kind in ("mixed", "single", "tall"):
+        for si in range(3):
+            obs.append(Obligation(f"C01/H/{kind}/stasher{si}", "H", "references to hidden columns through an earlier table object (native differential)", make_h(kind, si), functions=fns,
+                                  bounded=f"one column-hiding step >> every step V of the alphabet >> with / without alias(keep_col_refs=True) >> 3 uses of the hidden column; input `{kind}`"))
     for kind in ("mixed", "empty", "single", "tall"):
         for i, cx in enumerate(ctxs):
             for tl, tail in tails:
